@@ -581,6 +581,71 @@ class Sim(object):
         self.counters['churn_completed'] += 1
         return (L, F, L2, x, y, variant)
 
+    def op_lagsnap(self, a, b, c):
+        """Catch-up macro step: one node (voter or observer) is cut off while the rest commits x commands and
+        compacts; then it is reconnected and catches up - by snapshot when the entries are gone - with deliveries
+        in small portions, optionally with a connection break or a newer snapshot in the middle of the transfer."""
+        voters = [v for v in self.voters if v in self.nodes]
+        if len(voters) < 2:
+            return False
+        leaders = lambda: [v for v in self.voters if v in self.nodes and self.nodes[v]._isLeader()]
+        if len(leaders()) != 1:
+            self.blocked = set()
+            if not self.rounds_until(lambda: len(leaders()) == 1, 200):
+                return False
+        L = leaders()[0]
+        cands = [n for n in self.live() if n != L]
+        if not cands:
+            return False
+        F = cands[a % len(cands)]
+        if (len(voters) - (1 if F in voters else 0)) * 2 <= len(self.voters):
+            return False                    # the rest could not commit anything
+        self.set_partition({F})
+        x = 2 + b % 4
+        for _ in range(x):
+            if L in self.nodes:
+                self.submit(L, self.payload(1, self.next_cid))
+            for _ in range(2):
+                self.calm_round()
+                self.check(light=True)
+        if self.viol:
+            return (L, F, 'stopped')
+        for n in self.live():
+            if n != F and (n == L or (c >> 2) & 1):
+                self.nodes[n].forceLogCompaction()
+        for _ in range(3):
+            for n in self.live():
+                if n != F:
+                    self.tick_node(n, 0.02)
+            self.check(light=True)      # between ticks: commits must be seen while the entries are still in the log
+        self.blocked = set()
+        mode = c % 4
+        portion = [1, 2, 5, 1000][(b >> 2) % 4]
+        for r in range(60):
+            self.heal_links()
+            for n in self.live():
+                self.tick_node(n, 0.02)
+            for g, to in self._deliverables():
+                for _ in range(portion):
+                    if not self.net.deliver(g, to):
+                        break
+            if r == 2 + a % 3:
+                if mode == 1:
+                    for g in self.net.gens:
+                        if g.alive and F in (g.a, g.b):
+                            self.net.break_(g, 0, 0)
+                            break
+                elif mode == 2:
+                    ls = leaders()
+                    if ls:
+                        self.submit(ls[0], self.payload(1, self.next_cid))
+                        self.nodes[ls[0]].forceLogCompaction()
+            self.check(light=True)
+            if self.viol:
+                break
+        self.counters['lagsnap_completed'] += 1
+        return (L, F, x, mode, portion)
+
     def op_heal(self, a, b, c):
         if not self.blocked:
             return False
